@@ -24,6 +24,36 @@ def main():
     for d in sorted(glob.glob(os.path.join(V, "seeded_incoming", "*", "*", ""))):
         name = os.path.basename(d.rstrip("/"))
         c = conf.get(name)
+        meta0 = json.load(open(os.path.join(d, "meta.json")))
+        if meta0.get("kind") == "reverted-fix":
+            # a genuine defect of the original tree, re-introduced by reverting its repair: the demonstration is the
+            # native replay the check itself printed (scenario / concrete values and what the real build did)
+            rr = runs.get(name, {})
+            dst = os.path.join(out, name)
+            os.makedirs(dst, exist_ok=True)
+            shutil.copy(os.path.join(d, "patch.diff"), dst)
+            demo = []
+            for p_ in rr:
+                lg = os.path.join(V, ".cache", "mutants", "%s-%s.log" % (name, p_))
+                if os.path.exists(lg):
+                    keep = False
+                    for ln in open(lg):
+                        if ln.startswith("VIOLATION "):
+                            keep = True
+                        if keep and len(demo) < 60:
+                            demo.append(ln.rstrip())
+            open(os.path.join(dst, "demonstration.txt"), "w").write("\n".join(demo) + "\n")
+            meta0["checks_run_on_it"] = {p_: {"cmd": "./check %s --tier quick (private copy with the patch, tools/mutants.py)" % p_, "exit": r["exit"], "violation_lines": r["violations"],
+                                              "wall_s": r["wall_s"], "first_reported": r["first"]} for p_, r in rr.items()}
+            meta0["what_i_ran_to_confirm"] = "git apply --check -R of the fix commit on HEAD; the original tree (before the fix) passed the 144 tests; the check's own native replay (demonstration.txt) shows the failing input on the real build"
+            meta0["apply"] = "git -C /repo apply /verif/seeded/%s/patch.diff ; undo: git -C /repo checkout -- ." % name
+            json.dump(meta0, open(os.path.join(dst, "meta.json"), "w"), indent=1)
+            caught = [p_ for p_, r in rr.items() if r["exit"] == 1]
+            status = ("caught by " + ", ".join("%s (%s)" % (p_, rr[p_]["first"] or "violation") for p_ in caught)) if caught else \
+                ("inconclusive (exit 2) in " + ", ".join(p_ for p_, r in rr.items() if r["exit"] == 2) if any(r["exit"] == 2 for r in rr.values()) else
+                 ("missed by " + ", ".join(rr) if rr else "not run"))
+            rows.append((meta0.get("property"), name, status, ""))
+            continue
         if not c:
             continue
         ok = c.get("demo_on_clean") == "pass" and c.get("patch") == "applies" and str(c.get("suite_on_mutant", "")).startswith("144 passed, 0 failed") \
